@@ -16,7 +16,7 @@ from vf.run import Check, Res
 from vf.spec import (
     CSE, C, Call, Pow, Prod, Quot, Sub, Sum, T, V, build, build_shared, show, sort_maps, to_spec)
 
-BUDGET = {"quick": 21000, "thorough": 250000}     # transitions per mapper pair
+BUDGET = {"quick": 26000, "thorough": 250000}     # transitions per mapper pair
 MAX_DEPTH = 5
 
 
@@ -57,9 +57,12 @@ POOL = [
     T(Quot(X, Y), ("Remainder", X, Y), ("FloorDiv", X, Y), ("LeftShift", X, C(2)),
       ("RightShift", X, C(2)), ("BitwiseOr", T(X, Y)), ("BitwiseXor", T(X, Y)),
       ("BitwiseAnd", T(X, Y)), ("LogicalOr", T(X, Y)), ("LogicalAnd", T(X, Y))),
+    # 16: a node next to its own image under the renaming / substitution pairs (x -> y,
+    # y -> x + 6.5): a rewritten node must not be taken for an already mapped one
+    T(Prod(C(2), X), Prod(C(2), Y), Prod(C(2), Sum(X, C(6.5))), Pow(Y, C(2)), Pow(X, C(2))),
 ]
 SHARED = {6}        # built with DAG sharing (the two Product(x, y) are one object)
-POOL_Q = [0, 1, 2, 3, 4, 6, 7, 8, 11, 12, 13, 14]
+POOL_Q = [0, 1, 2, 3, 4, 6, 7, 8, 11, 12, 13, 14, 16]
 # extra arguments of a call: (positional tuple, keyword items)
 ARGS = [((), ()), ((1,), ()), ((1.0,), ()), ((True,), ()), ((1, "a"), ()),
         ((), (("k", 1),)), ((), (("k", 2),)), ((1,), (("k", 1),)),
@@ -77,7 +80,8 @@ def pool_obj(i):
 
 def norm_result(o):
     if isinstance(o, (set, frozenset)):
-        return ("set", *sorted((norm_result(x) for x in o), key=repr))
+        # the container type is part of the result: a caller may extend a set
+        return (type(o).__name__, *sorted((norm_result(x) for x in o), key=repr))
     if isinstance(o, Counter):
         return ("counter", *sorted(((norm_result(k), v) for k, v in o.items()), key=repr))
     return sort_maps(to_spec(o))
@@ -162,7 +166,7 @@ def pairs():
         def map_common_subexpression_uncached(self, expr, *a, **k):
             return WalkMapper.map_common_subexpression(self, expr, *a, **k)
 
-    subst = {"x": p.Variable("y"), p.Variable("y"): p.Sum((p.Variable("x"), 4.0))}
+    subst = {"x": p.Variable("y"), p.Variable("y"): p.Sum((p.Variable("x"), 6.5))}
     out = {
         "identity": (lambda: instrument(CachedIdentityMapper)(), lambda: IdentityMapper(), True),
         "renamer": (lambda: instrument(CRen)(), lambda: PRen(), True),
@@ -286,7 +290,7 @@ class C05(Check):
             "(equal-but-not-identical subtrees, DAG sharing, 4 / 4.0 / True as leaves, in a tuple "
             "and at top level, one CSE wrapper twice, two user node classes over different bases "
             "that name the same unimplemented handler, old-style nodes differing in a hash-colliding "
-            "extra argument) and arguments from {(), (1,), (1.0,), "
+            "extra argument, a node next to its own image under the rewriting pairs) and arguments from {(), (1,), (1.0,), "
             "(True,), (1,'a'), k=1, k=2, (1, k=1), (k=1, j=2), (j=2, k=1), (('k', 1),)}; all histories up to the largest depth whose complete exploration "
             "fits 15k (quick) / 250k (thorough) transitions per mapper pair (depth 3-5); pairs: identity, argument-dependent renamer, leaf-counting combine, collector, "
             "walk, evaluation, substitution, dependency x 3 flag settings, and every class the "
